@@ -668,29 +668,22 @@ def rule_G(ctx):
         modes[k] = v.value
     INFP = float('inf')
 
-    class P(orders.PyStub):
-        isa = ('ENUCoords',)
+    # positions are the repository's own ENUCoords objects (their distances and their tolerant equality are part of what is decided)
+    EN = absint.classref(ctx, 'tracklib.core.obs_coords.ENUCoords', fn)
+    fn['sqrt'], fn['hypot'] = math.sqrt, math.hypot
 
-        def __init__(self, e, n, u=0.0):
-            self.E, self.N, self.U = float(e), float(n), float(u)
+    def P(e, n, u=0.0):
+        return EN(float(e), float(n), float(u))
 
-        def getX(self):
-            return self.E
+    class _Canvas(orders.PyStub):
+        """matplotlib.pyplot as seen by the plot=True paths: every drawing call is accepted and does nothing"""
 
-        def getY(self):
-            return self.N
-
-        def getZ(self):
-            return self.U
-
-        def copy(self):
-            return P(self.E, self.N, self.U)
-
-        def distance2DTo(self, o):
-            return math.hypot(self.E - o.E, self.N - o.N)
-
-        def distanceTo(self, o):
-            return math.sqrt((self.E - o.E) ** 2 + (self.N - o.N) ** 2 + (self.U - o.U) ** 2)
+        def __getattr__(self, name):
+            if name.startswith('__') or name in ('repo_methods', 'repo_funcs', 'isa'):
+                raise AttributeError(name)
+            return lambda *a_, **k_: _Canvas()
+    fn['plt'] = _Canvas()
+    fn['__globals__']['plt'] = fn['plt']
 
     class O(orders.PyStub):
         isa = ('Obs',)
@@ -701,7 +694,7 @@ def rule_G(ctx):
             self.features = []
 
         def copy(self):
-            o = O(self.position.copy())
+            o = O(absint.deep_copy(self.position))
             o.features = list(self.features)
             return o
 
@@ -731,7 +724,7 @@ def rule_G(ctx):
     found = {}
     n_cases = 0
 
-    def one(t1, t2, mode_name, p, dim, want, chained=None):
+    def one(t1, t2, mode_name, p, dim, want, chained=None, plot=False):
         nonlocal n_cases
         n_cases += 1
         p_arg = p
@@ -744,7 +737,9 @@ def rule_G(ctx):
                 # track 1 is itself the result of an earlier matching (against another track): it already carries the link features
                 case['track 1 is the result of an earlier match against'] = [list(q) for q in chained]
                 first = fn['__name__']('match')(first, track_of(chained), modes[mode_name], p_arg, dim, False, False)
-            res = fn['__name__']('match')(first, track_of(t2), modes[mode_name], p_arg, dim, False, False)
+            if plot:
+                case['plot'] = True
+            res = fn['__name__']('match')(first, track_of(t2), modes[mode_name], p_arg, dim, False, plot)
         except orders.Unsupported as ex:
             raise shape_error('match not interpretable: %s' % ex, fm.loc())
         except (ZeroDivisionError, IndexError, KeyError, TypeError, AttributeError, ValueError, orders.Raised, RecursionError) as ex:
@@ -815,6 +810,42 @@ def rule_G(ctx):
     for mode_name, p in (('MODE_MATCHING_DTW', 1), ('MODE_MATCHING_FDTW', 1), ('MODE_MATCHING_FRECHET', 1)):
         t1, t2, t3 = [A_, B_, C_], [A_, A_, B_, C_], [C_, B_]
         one(t1, t3, mode_name, p, 2, optimum(t1, t3, INFP if mode_name == 'MODE_MATCHING_FRECHET' else p, 2), chained=t2)
+    # (e) sub-millimetre scale: distinct fixes closer than the tolerance of the position equality still have their true distances
+    S1, S2, S3 = (0.0, 0.0, 0.0), (0.00003, 0.00004, 0.00001), (0.00006, 0.0, 0.00002)
+    for t1, t2 in (([S1, S2, S3], [S2, S1]), ([S1, S3], [S2, S2, S3]), ([S2], [S1, S3])):
+        for mode_name, p in (('MODE_MATCHING_DTW', 1), ('MODE_MATCHING_FDTW', 1), ('MODE_MATCHING_FRECHET', 1), ('MODE_MATCHING_DTW', 2)):
+            for dim in (2, 3):
+                one(t1, t2, mode_name, p, dim, optimum(t1, t2, INFP if mode_name == 'MODE_MATCHING_FRECHET' else p, dim))
+    # (f) near ties between the predecessors of a cell (a 100 m grid with millimetre jitter, doubled fixes one millimetre apart): the
+    #     coupling returned is still one whose accumulated cost is the score
+    G = lambda i, j, e=0.0: (100.0 * i + e, 100.0 * j - e, 0.0)
+    near = [([G(0, 0), G(0, 0, 0.001), G(1, 0), G(1, 1, 0.002)], [G(0, 0, 0.0005), G(1, 0, 0.001), G(1, 1)]),
+            ([G(0, 0), G(1, 0, 0.001), G(2, 0)], [G(0, 0, 0.002), G(0, 0, 0.0015), G(1, 0), G(2, 0, 0.001), G(2, 0)]),
+            ([G(0, 0), G(1, 1, 0.001), G(1, 1), G(2, 2)], [G(0, 0, 0.001), G(1, 1, 0.0005), G(2, 2, 0.001)]),
+            ([G(0, 0), G(0, 1), G(1, 1)], [G(0, 0, 0.001), G(1, 0, 0.001), G(1, 1, 0.001)])]
+    # two parallel lines 50 m apart, one of them with fixes doubled one millimetre apart (accumulated costs of 100-300 m whose
+    # alternatives differ by a millimetre)
+    for k_ in (1, 2):
+        for e_ in (0.001, -0.001, 0.0004):
+            a_ = [(100.0 * i_, 0.0, 0.0) for i_ in range(4)]
+            a_.insert(k_ + 1, (100.0 * k_ + e_, e_, 0.0))
+            b_ = [(100.0 * i_, 50.0 + (0.0003 * i_), 0.0) for i_ in range(4)]
+            near.append((a_, b_))
+            near.append((b_, a_))
+    # a 100 m lattice with millimetre jitter, tracks of 2-4 fixes drawn with a fixed generator (the same pairs on every run)
+    import random as _random
+    rnd = _random.Random(18)
+    for _ in range(60 if ctx.tier == 'thorough' else 24):
+        mk_ = lambda: [(rnd.randint(0, 3) * 100.0, rnd.randint(0, 2) * 100.0 + rnd.randint(0, 3) * 0.001, 0.0) for _k in range(rnd.randint(2, 4))]
+        near.append((mk_(), mk_()))
+    for t1, t2 in near:
+        for mode_name, p in (('MODE_MATCHING_DTW', 1), ('MODE_MATCHING_DTW', 2), ('MODE_MATCHING_FDTW', 1), ('MODE_MATCHING_FRECHET', 1)):
+            one(t1, t2, mode_name, p, 2, optimum(t1, t2, INFP if mode_name == 'MODE_MATCHING_FRECHET' else p, 2))
+            one(t2, t1, mode_name, p, 2, optimum(t2, t1, INFP if mode_name == 'MODE_MATCHING_FRECHET' else p, 2))
+    # (g) the plot option (drawing calls accepted and ignored): same score, same coupling - identical tracks (cost 0) included
+    for t1, t2 in (([A_, B_, C_], [A_, B_, C_]), ([A_, B_], [A_, A_, B_]), ([A_, B_, C_, A_], [A_, C_])):
+        for mode_name, p in (('MODE_MATCHING_DTW', 1), ('MODE_MATCHING_FDTW', 1), ('MODE_MATCHING_FDTW', 2), ('MODE_MATCHING_FRECHET', 1)):
+            one(t1, t2, mode_name, p, 2, optimum(t1, t2, INFP if mode_name == 'MODE_MATCHING_FRECHET' else p, 2), plot=True)
     for key, (desc, wit) in sorted(found.items()):
         ctx.violation('C18.G', fm, desc, wit, node=fm.node, key=key)
     for mode_name in ('MODE_MATCHING_DTW', 'MODE_MATCHING_FDTW', 'MODE_MATCHING_FRECHET'):
